@@ -14,6 +14,7 @@ import multiprocessing.synchronize
 import multiprocessing.util
 import os
 import sys
+import threading
 import time
 import traceback
 
@@ -243,11 +244,15 @@ class SpawnProcess(multiprocessing.context.SpawnProcess):
     @staticmethod
     def _finalize(logger_thread, q):
         q.put(None)
-        # Do not `join` the logger thread here. This finalizer runs whenever the process
-        # object is garbage-collected, i.e. possibly in the middle of any allocation in any
-        # thread, in particular inside `threading`'s own bookkeeping at the start of a new
-        # thread, where it holds an internal (non-reentrant) lock that `Thread.join` needs
-        # as well: the program dead-locks. The logger thread ends by itself on the end marker.
+        # Wait until the logger thread has handled everything up to the end marker, but do not
+        # `join` it. This finalizer runs whenever the process object is garbage-collected, i.e.
+        # possibly in the middle of any allocation in any thread, in particular inside
+        # `threading`'s own bookkeeping at the start of a new thread, where it holds an internal
+        # (non-reentrant) lock that `Thread.join` needs as well: the program dead-locks.
+        # Waiting on the thread's Future does not involve that lock.
+        fut = logger_thread._future_
+        if fut is not None and threading.current_thread() is not logger_thread:
+            concurrent.futures.wait([fut])
 
     @staticmethod
     def handle_exception(exc):
